@@ -22,6 +22,7 @@ u256 __CPROVER_uninterpreted_scmul2(u256 a, u256 b);
 u256 __CPROVER_uninterpreted_scinv2(u256 a);
 u256 __CPROVER_uninterpreted_genx(u256 gn);
 u256 __CPROVER_uninterpreted_geny(u256 gn);
+u256 __CPROVER_uninterpreted_genz(u256 gn);
 u256 __CPROVER_uninterpreted_emx(bvw ax, bvw ay, bvw az, int ainf, u256 na, u256 ng);
 u256 __CPROVER_uninterpreted_emy(bvw ax, bvw ay, bvw az, int ainf, u256 na, u256 ng);
 int __CPROVER_uninterpreted_eminf(bvw ax, bvw ay, bvw az, int ainf, u256 na, u256 ng);
@@ -50,7 +51,11 @@ static int uf_gen_calls;
 void STUB_secp256k1_ecmult_gen(const secp256k1_ecmult_gen_context *ctx, secp256k1_gej *r, const secp256k1_scalar *gn) { W_UF_ENTER
     u256 g = uf_sc_get(gn); (void)ctx; uf_gen_calls++;
     uf_fe_set(&r->x, __CPROVER_uninterpreted_genx(g)); uf_fe_set(&r->y, __CPROVER_uninterpreted_geny(g));
+#ifdef W_UF_GEN_Z   /* C06: the Jacobian z of a fixed-base product depends on the (secret) scalar and blinding, like its x and y */
+    uf_fe_set(&r->z, __CPROVER_uninterpreted_genz(g)); r->infinity = (g == 0); W_UF_LEAVE }
+#else
     r->z.n[0] = 1; r->z.n[1] = r->z.n[2] = r->z.n[3] = r->z.n[4] = 0; r->infinity = (g == 0); W_UF_LEAVE }
+#endif
 void STUB_secp256k1_ecmult(secp256k1_gej *r, const secp256k1_gej *a, const secp256k1_scalar *na, const secp256k1_scalar *ng) { W_UF_ENTER W_UF_VT(&a->x, sizeof(a->x)); W_UF_VT(&a->y, sizeof(a->y)); W_UF_VT(&a->z, sizeof(a->z)); W_UF_VT(&a->infinity, sizeof(int)); W_UF_VT(na, sizeof(*na)); if (ng) W_UF_VT(ng, sizeof(*ng));
     bvw ax = fe_val(&a->x), ay = fe_val(&a->y), az = fe_val(&a->z); int ai = a->infinity; u256 n1 = uf_sc_get(na), n2 = ng ? uf_sc_get(ng) : 0;
     if (ai) { ax = ay = az = 0; }
